@@ -433,11 +433,16 @@ func (x *Exec) frameGoals(fr *Frame, env *CEnv, fin *State) (out []frameGoal) {
 	}
 	allow := map[string][]allowed{}
 	mapsFree := false
+	var allPrefixes []string
 	for _, me := range fc.Modifies {
 		star := false
 		e := me
 		if e.Kind == "id" && e.Name == "maps" {
 			mapsFree = true
+			continue
+		}
+		if e.Kind == "call" && e.Name == "all" && len(e.Args) == 1 {
+			allPrefixes = append(allPrefixes, e.Args[0].String())
 			continue
 		}
 		if e.Kind == "call" && e.Name == "stream" && len(e.Args) == 1 {
@@ -480,6 +485,15 @@ func (x *Exec) frameGoals(fr *Frame, env *CEnv, fin *State) (out []frameGoal) {
 	a0 := x.alloc(&fr.entry)
 	for _, k := range sortedKeys(fin.H) {
 		if k == "$alloc" || mapsFree && strings.HasPrefix(k, "Map.") {
+			continue
+		}
+		skipAll := false
+		for _, ap := range allPrefixes {
+			if k == ap || strings.HasPrefix(k, ap+".") {
+				skipAll = true
+			}
+		}
+		if skipAll {
 			continue
 		}
 		now := fin.H[k]
